@@ -8,6 +8,7 @@ device inputs: stop kind, tick count, events, halt reason, trap, pc, operand
 stack.  An observation is compared through the sha256 of its canonical JSON:
 workers get the reference digest and answer {'same': True} or the whole
 observation."""
+import ctypes
 import enum
 import hashlib
 import json
@@ -193,6 +194,13 @@ def answer(o, ref):
 # --------------------------------------------------------------------------
 # environments
 
+def _die_with_parent():
+    try:
+        ctypes.CDLL('libc.so.6').prctl(1, signal.SIGKILL)     # PR_SET_PDEATHSIG
+    except Exception:  # noqa
+        pass
+
+
 def _in_child(work):
     """run work() in a child forked from this (pristine) process; JSON result"""
     assert _ncompiled == 0
@@ -200,6 +208,7 @@ def _in_child(work):
     pid = os.fork()
     if pid == 0:
         try:
+            _die_with_parent()
             os.close(rfd)
             try:
                 r = work()
@@ -250,6 +259,7 @@ def fanout(case):
         pid = os.fork()
         if pid == 0:
             try:
+                _die_with_parent()
                 os.close(rfd)
                 out = []
                 for i in idxs:
